@@ -21,10 +21,18 @@
 From Coq Require Import List Arith Bool.
 Import ListNotations.
 From ZI Require Export Lib.Util Model.Ro Model.Adapter Model.Lookup Model.Super.
+From ZI Require Model.RegSys Tie.RegCommon.
 
 (* use_c, world, reported mros, history, answers, I.providedBy sets *)
-Definition case_t :=
+Definition decl_case :=
   (bool * env * list (list cls) * list op * list (list nat) * list (option (list nat)))%type.
+
+(* a second stream runs registry histories over a STATIC world that contains super proxies through
+   the shared ordered registry model (Model/Adapter.v + Model/Lookup.v + Model/RegSys.v, world
+   rebuilt from the observed __bases__ of every specification incl. the synthesized ones) *)
+Inductive case_t :=
+| CDecl (c : decl_case)
+| CReg (h : RegCommon.hist_case).
 
 (* ---- model side *)
 Fixpoint renumber (seen : list nat) (l : list (list nat)) : list (list nat) :=
@@ -45,7 +53,10 @@ Definition model_mros (E : env) : list (option (list cls)) :=
   map (mro_of E) (seq 0 (length (e_cg E))).
 
 Definition model_out (c : case_t) : list (option (list cls)) * list (list nat) :=
-  let '(uc, E, _, ops, _, _) := c in (model_mros E, renumber [] (run uc E init ops)).
+  match c with
+  | CDecl (uc, E, _, ops, _, _) => (model_mros E, renumber [] (run uc E init ops))
+  | CReg h => ([], RegCommon.hist_model_out h)
+  end.
 
 (* I.providedBy(x) is "I in providedBy(x)._implied": the content part of the answer *)
 Definition ip_ok (a : list nat) (ip : option (list nat)) : bool :=
@@ -61,7 +72,7 @@ Fixpoint all2 {A B} (f : A -> B -> bool) (l : list A) (m : list B) : bool :=
   | _, _ => false
   end.
 
-Definition check_model (c : case_t) : bool :=
+Definition check_model_decl (c : decl_case) : bool :=
   let '(uc, E, mros, ops, ans, ips) := c in
   env_ok E
   && list_eqb (option_eqb lnat_eqb) (model_mros E) (map Some mros)
@@ -182,7 +193,30 @@ Fixpoint spec_run (E : env) (mros : list (list cls)) (d : sdecl) (regs : list re
   | _, _, _ => false
   end.
 
-Definition check_spec (c : case_t) : bool :=
+Definition check_spec_decl (c : decl_case) : bool :=
   let '(_, E, mros, ops, ans, ips) := c in
   Nat.eqb (length mros) (length (e_cg E))
   && spec_run E mros (map (fun _ => ([], true)) (e_cg E)) [] ops ans ips.
+
+(* registry stream: whenever a factory ran (answer [1; r], r = factory * 1000 + one digit per
+   object it received, see Tie.RegCommon.call) the digits are those of the UNDERLYING objects:
+   a proxy is never handed to a factory.  Which factory is chosen among several applicable ones is
+   C04's subject and judged there. *)
+Definition digits (os : list obj) : nat := fold_left (fun c o => c * 10 + unwrap o mod 10) os 0.
+
+Definition spec_reg_op (o : RegSys.rop) (a : list nat) : bool :=
+  match o, a with
+  | RegSys.QQueryAdapter _ ob _ _, [1; r] | RegSys.QAdapterHook _ ob _ _, [1; r] => Nat.eqb (r mod 1000) (digits [ob])
+  | RegSys.QQueryMultiAdapter _ os _ _, [1; r] => Nat.eqb (r mod 1000) (digits os)
+  | _, _ => true
+  end.
+
+Definition check_spec_reg (h : RegCommon.hist_case) : bool :=
+  let '(_, _, ops, ans) := h in
+  Nat.eqb (length ops) (length ans) && all2 spec_reg_op ops ans.
+
+Definition check_model (c : case_t) : bool :=
+  match c with CDecl d => check_model_decl d | CReg h => RegCommon.hist_check_model h end.
+
+Definition check_spec (c : case_t) : bool :=
+  match c with CDecl d => check_spec_decl d | CReg h => check_spec_reg h end.
